@@ -305,7 +305,8 @@ func processClientHello(c *Conn, hs *serverHandshakeState) (bool, error) {
 	var ok bool
 	var err error
 	c.vers, ok = c.config.mutualVersion(hs.clientHello.vers)
-	if !ok {
+	if !ok || c.vers == VersionGMSSL {
+		// the GMSSL version number is only meaningful on the GMSSL handshake path
 		_ = c.sendAlert(alertProtocolVersion)
 		return false, fmt.Errorf("tls: client offered an unsupported, maximum protocol version of %x", hs.clientHello.vers)
 	}
